@@ -95,24 +95,24 @@ theorem liveExp_future {s : MState} {now : Int} {k : Bytes} {e : Int} (h : liveE
 /-- every `writeKey key newStr` prefix: what the command then finds under the key -/
 theorem open_str (s : MState) (now : Int) (k : Bytes) :
     (∀ v0, live s now k = some v0 →
-        Hot (writeKey s now k (some .strNil)).1 k v0 now ∧
-        (∀ k', lookup (writeKey s now k (some .strNil)).1 now k' = lookup s now k')) ∧
+        Hot (writeKey s now k (some (.str []))).1 k v0 now ∧
+        (∀ k', lookup (writeKey s now k (some (.str []))).1 now k' = lookup s now k')) ∧
     (live s now k = none →
-        Hot (writeKey s now k (some .strNil)).1 k .strNil now ∧ HotExp (writeKey s now k (some .strNil)).1 k 0) := by
+        Hot (writeKey s now k (some (.str []))).1 k (.str []) now ∧ HotExp (writeKey s now k (some (.str []))).1 k 0) := by
   constructor
   · intro v0 hl
-    obtain ⟨_, h2, h3⟩ := writeKey_live s now k (some .strNil) v0 hl
+    obtain ⟨_, h2, h3⟩ := writeKey_live s now k (some (.str [])) v0 hl
     exact ⟨h2, h3⟩
   · intro hl
-    obtain ⟨_, m, hm, hok, he, hv⟩ := (writeKey_absent s now k (some .strNil) hl).2 .strNil rfl
+    obtain ⟨_, m, hm, hok, he, hv⟩ := (writeKey_absent s now k (some (.str [])) hl).2 (.str []) rfl
     exact ⟨⟨m, hm, hok, expired_of_exp_zero m now he, hv⟩, ⟨m, hm, he⟩⟩
 
 /-- the string the key holds for a string command: its live value, or a fresh nil string -/
-def strAt (s : MState) (now : Int) (k : Bytes) : Val := (live s now k).getD .strNil
+def strAt (s : MState) (now : Int) (k : Bytes) : Val := (live s now k).getD (.str [])
 
 theorem open_str_ok (s : MState) (now : Int) (k : Bytes) (hs : ∀ v0, live s now k = some v0 → isStrVal v0 = true) :
-    Hot (writeKey s now k (some .strNil)).1 k (strAt s now k) now ∧ isStrVal (strAt s now k) = true ∧
-    HotExp (writeKey s now k (some .strNil)).1 k ((liveExp s now k).getD 0) := by
+    Hot (writeKey s now k (some (.str []))).1 k (strAt s now k) now ∧ isStrVal (strAt s now k) = true ∧
+    HotExp (writeKey s now k (some (.str []))).1 k ((liveExp s now k).getD 0) := by
   unfold strAt
   cases hl : live s now k with
   | none =>
@@ -156,7 +156,7 @@ theorem set_ok (s : MState) (now : Int) (k v : Bytes) (keep : Bool)
     HotExp (Api.set s now k v keep).1 k (if keep then (liveExp s now k).getD 0 else 0) := by
   obtain ⟨h1, h2, h3⟩ := open_str_ok s now k hs
   unfold Api.set
-  generalize writeKey s now k (some .strNil) = w at *
+  generalize writeKey s now k (some (.str [])) = w at *
   obtain ⟨s1, b⟩ := w
   simp only at h1 h3 ⊢
   rw [asStr_hot_str h1 h2]
@@ -176,7 +176,7 @@ theorem set_wrongtype (s : MState) (now : Int) (k v : Bytes) (keep : Bool) (v0 :
     (∀ k', lookup (Api.set s now k v keep).1 now k' = lookup s now k') := by
   obtain ⟨h1, h2⟩ := (open_str s now k).1 v0 hl
   unfold Api.set
-  generalize writeKey s now k (some .strNil) = w at *
+  generalize writeKey s now k (some (.str [])) = w at *
   obtain ⟨s1, b⟩ := w
   simp only at h1 h2 ⊢
   rw [asStr_hot_other h1 ht]
@@ -188,7 +188,7 @@ theorem setOpt_ok (s : MState) (now : Int) (k : Bytes) (v : DsStr.S) (keep : Boo
     HotExp (Api.setOpt s now k v keep).1 k (if keep then (liveExp s now k).getD 0 else 0) := by
   obtain ⟨h1, h2, h3⟩ := open_str_ok s now k hs
   unfold Api.setOpt
-  generalize writeKey s now k (some .strNil) = w at *
+  generalize writeKey s now k (some (.str [])) = w at *
   obtain ⟨s1, b⟩ := w
   simp only at h1 h3 ⊢
   rw [asStr_hot_str h1 h2]
@@ -208,7 +208,7 @@ theorem setOpt_wrongtype (s : MState) (now : Int) (k : Bytes) (v : DsStr.S) (kee
     (∀ k', lookup (Api.setOpt s now k v keep).1 now k' = lookup s now k') := by
   obtain ⟨h1, h2⟩ := (open_str s now k).1 v0 hl
   unfold Api.setOpt
-  generalize writeKey s now k (some .strNil) = w at *
+  generalize writeKey s now k (some (.str [])) = w at *
   obtain ⟨s1, b⟩ := w
   simp only at h1 h2 ⊢
   rw [asStr_hot_other h1 ht]
@@ -220,7 +220,7 @@ theorem getSet_ok (s : MState) (now : Int) (k v : Bytes)
     HotExp (Api.getSet s now k v).1 k 0 := by
   obtain ⟨h1, h2, h3⟩ := open_str_ok s now k hs
   unfold Api.getSet
-  generalize writeKey s now k (some .strNil) = w at *
+  generalize writeKey s now k (some (.str [])) = w at *
   obtain ⟨s1, b⟩ := w
   simp only at h1 h3 ⊢
   rw [asStr_hot_str h1 h2]
@@ -233,7 +233,7 @@ theorem getSet_wrongtype (s : MState) (now : Int) (k v : Bytes) (v0 : Val)
     (∀ k', lookup (Api.getSet s now k v).1 now k' = lookup s now k') := by
   obtain ⟨h1, h2⟩ := (open_str s now k).1 v0 hl
   unfold Api.getSet
-  generalize writeKey s now k (some .strNil) = w at *
+  generalize writeKey s now k (some (.str [])) = w at *
   obtain ⟨s1, b⟩ := w
   simp only at h1 h2 ⊢
   rw [asStr_hot_other h1 ht]
@@ -247,7 +247,7 @@ theorem setEX_ok (s : MState) (now : Int) (k v : Bytes) (seconds : Int)
     HotExp (Api.setEX s now k v seconds).1 k (wrap64 (now + wrap64 (seconds * 1000))) := by
   obtain ⟨h1, h2, h3⟩ := open_str_ok s now k hs
   unfold Api.setEX
-  generalize writeKey s now k (some .strNil) = w at *
+  generalize writeKey s now k (some (.str [])) = w at *
   obtain ⟨s1, b⟩ := w
   simp only at h1 h3 ⊢
   rw [asStr_hot_str h1 h2]
@@ -261,7 +261,7 @@ theorem setPX_ok (s : MState) (now : Int) (k v : Bytes) (ms : Int)
     HotExp (Api.setPX s now k v ms).1 k (wrap64 (now + ms)) := by
   obtain ⟨h1, h2, h3⟩ := open_str_ok s now k hs
   unfold Api.setPX
-  generalize writeKey s now k (some .strNil) = w at *
+  generalize writeKey s now k (some (.str [])) = w at *
   obtain ⟨s1, b⟩ := w
   simp only at h1 h3 ⊢
   rw [asStr_hot_str h1 h2]
@@ -274,7 +274,7 @@ theorem setEX_wrongtype (s : MState) (now : Int) (k v : Bytes) (seconds : Int) (
     (∀ k', lookup (Api.setEX s now k v seconds).1 now k' = lookup s now k') := by
   obtain ⟨h1, h2⟩ := (open_str s now k).1 v0 hl
   unfold Api.setEX
-  generalize writeKey s now k (some .strNil) = w at *
+  generalize writeKey s now k (some (.str [])) = w at *
   obtain ⟨s1, b⟩ := w
   simp only at h1 h2 ⊢
   rw [asStr_hot_other h1 ht]
@@ -286,7 +286,7 @@ theorem setPX_wrongtype (s : MState) (now : Int) (k v : Bytes) (ms : Int) (v0 : 
     (∀ k', lookup (Api.setPX s now k v ms).1 now k' = lookup s now k') := by
   obtain ⟨h1, h2⟩ := (open_str s now k).1 v0 hl
   unfold Api.setPX
-  generalize writeKey s now k (some .strNil) = w at *
+  generalize writeKey s now k (some (.str [])) = w at *
   obtain ⟨s1, b⟩ := w
   simp only at h1 h2 ⊢
   rw [asStr_hot_other h1 ht]
@@ -311,9 +311,9 @@ theorem setNX_absent (s : MState) (now : Int) (k v : Bytes) (keep : Bool) (hl : 
   simp only [Option.isSome_none] at hf
   subst hf
   simp only [Bool.false_eq_true, if_false]
-  obtain ⟨m, hm, hok, he, hv⟩ := newKeyWith_hot s1 k none .strNil
-  have h1 : Hot (newKeyWith s1 k none .strNil) k .strNil now := ⟨m, hm, hok, expired_of_exp_zero m now he, hv⟩
-  have h3 : HotExp (newKeyWith s1 k none .strNil) k 0 := ⟨m, hm, he⟩
+  obtain ⟨m, hm, hok, he, hv⟩ := newKeyWith_hot s1 k none (.str [])
+  have h1 : Hot (newKeyWith s1 k none (.str [])) k (.str []) now := ⟨m, hm, hok, expired_of_exp_zero m now he, hv⟩
+  have h3 : HotExp (newKeyWith s1 k none (.str [])) k 0 := ⟨m, hm, he⟩
   cases keep with
   | true =>
     simp only [Bool.not_true, Bool.false_eq_true, if_false]
@@ -394,14 +394,14 @@ theorem addInt_ok (s : MState) (now : Int) (k : Bytes) (delta : Int) (neg sw : B
     match counterStep (strOf (strAt s now k)) delta neg with
     | none =>
       (Api.addInt s now k delta neg sw).2 = .many [.int 0, .err true] ∧
-      (Api.addInt s now k delta neg sw).1 = (writeKey s now k (some .strNil)).1
+      (Api.addInt s now k delta neg sw).1 = (writeKey s now k (some (.str []))).1
     | some (v', n) =>
       (Api.addInt s now k delta neg sw).2 = .many [.int n, .err false] ∧
       Hot (Api.addInt s now k delta neg sw).1 k (strVal v') now ∧
       HotExp (Api.addInt s now k delta neg sw).1 k ((liveExp s now k).getD 0) := by
   obtain ⟨h1, h2, h3⟩ := open_str_ok s now k hs
   unfold Api.addInt counterStep
-  generalize writeKey s now k (some .strNil) = w at *
+  generalize writeKey s now k (some (.str [])) = w at *
   obtain ⟨s1, b⟩ := w
   simp only at h1 h3 ⊢
   rw [asStr_hot_str h1 h2]
@@ -418,7 +418,7 @@ theorem addInt_wrongtype (s : MState) (now : Int) (k : Bytes) (delta : Int) (neg
     (∀ k', lookup (Api.addInt s now k delta neg sw).1 now k' = lookup s now k') := by
   obtain ⟨h1, h2⟩ := (open_str s now k).1 v0 hl
   unfold Api.addInt
-  generalize writeKey s now k (some .strNil) = w at *
+  generalize writeKey s now k (some (.str [])) = w at *
   obtain ⟨s1, b⟩ := w
   simp only at h1 h2 ⊢
   rw [asStr_hot_other h1 ht]
@@ -434,7 +434,7 @@ theorem setBit_ok (s : MState) (now : Int) (k : Bytes) (offset : Int) (value : B
     HotExp (Api.setBit s now k offset value).1 k ((liveExp s now k).getD 0) := by
   obtain ⟨h1, h2, h3⟩ := open_str_ok s now k hs
   unfold Api.setBit
-  generalize writeKey s now k (some .strNil) = w at *
+  generalize writeKey s now k (some (.str [])) = w at *
   obtain ⟨s1, b⟩ := w
   simp only at h1 h3 ⊢
   rw [asStr_hot_str h1 h2]
@@ -446,7 +446,7 @@ theorem setBit_wrongtype (s : MState) (now : Int) (k : Bytes) (offset : Int) (va
     (∀ k', lookup (Api.setBit s now k offset value).1 now k' = lookup s now k') := by
   obtain ⟨h1, h2⟩ := (open_str s now k).1 v0 hl
   unfold Api.setBit
-  generalize writeKey s now k (some .strNil) = w at *
+  generalize writeKey s now k (some (.str [])) = w at *
   obtain ⟨s1, b⟩ := w
   simp only at h1 h2 ⊢
   rw [asStr_hot_other h1 ht]
@@ -459,7 +459,7 @@ theorem append_ok (s : MState) (now : Int) (k : Bytes) (data : Bytes)
     HotExp (Api.append s now k data).1 k ((liveExp s now k).getD 0) := by
   obtain ⟨h1, h2, h3⟩ := open_str_ok s now k hs
   unfold Api.append
-  generalize writeKey s now k (some .strNil) = w at *
+  generalize writeKey s now k (some (.str [])) = w at *
   obtain ⟨s1, b⟩ := w
   simp only at h1 h3 ⊢
   rw [asStr_hot_str h1 h2]
@@ -471,7 +471,7 @@ theorem append_wrongtype (s : MState) (now : Int) (k : Bytes) (data : Bytes) (v0
     (∀ k', lookup (Api.append s now k data).1 now k' = lookup s now k') := by
   obtain ⟨h1, h2⟩ := (open_str s now k).1 v0 hl
   unfold Api.append
-  generalize writeKey s now k (some .strNil) = w at *
+  generalize writeKey s now k (some (.str [])) = w at *
   obtain ⟨s1, b⟩ := w
   simp only at h1 h2 ⊢
   rw [asStr_hot_other h1 ht]
@@ -482,14 +482,14 @@ theorem setRange_ok (s : MState) (now : Int) (k : Bytes) (offset : Int) (data : 
     match DsStr.setRange (strOf (strAt s now k)) offset data with
     | none =>
       (Api.setRange s now k offset data).2 = .panic ∧
-      (Api.setRange s now k offset data).1 = (writeKey s now k (some .strNil)).1
+      (Api.setRange s now k offset data).1 = (writeKey s now k (some (.str []))).1
     | some (v', n) =>
       (Api.setRange s now k offset data).2 = .int n ∧
       Hot (Api.setRange s now k offset data).1 k (strVal v') now ∧
       HotExp (Api.setRange s now k offset data).1 k ((liveExp s now k).getD 0) := by
   obtain ⟨h1, h2, h3⟩ := open_str_ok s now k hs
   unfold Api.setRange
-  generalize writeKey s now k (some .strNil) = w at *
+  generalize writeKey s now k (some (.str [])) = w at *
   obtain ⟨s1, b⟩ := w
   simp only at h1 h3 ⊢
   rw [asStr_hot_str h1 h2]
@@ -506,7 +506,7 @@ theorem setRange_wrongtype (s : MState) (now : Int) (k : Bytes) (offset : Int) (
     (∀ k', lookup (Api.setRange s now k offset data).1 now k' = lookup s now k') := by
   obtain ⟨h1, h2⟩ := (open_str s now k).1 v0 hl
   unfold Api.setRange
-  generalize writeKey s now k (some .strNil) = w at *
+  generalize writeKey s now k (some (.str [])) = w at *
   obtain ⟨s1, b⟩ := w
   simp only at h1 h2 ⊢
   rw [asStr_hot_other h1 ht]
@@ -1194,10 +1194,10 @@ theorem frame_setExp_pebble (s : MState) (k : Bytes) (e : Int) (hp : s.pebble = 
 theorem set_frame_pebble (s : MState) (now : Int) (k v : Bytes) (keep : Bool) (hp : s.pebble = true) :
     SameDisk s (Api.set s now k v keep).1 ∧
     ∀ k', k' ≠ k → getMeta (Api.set s now k v keep).1 k' = getMeta s k' := by
-  have sd1 := sameDisk_writeKey s now k (some .strNil)
-  have g1 := fun k' (h : k' ≠ k) => getMeta_writeKey_other s now k (some .strNil) k' h
+  have sd1 := sameDisk_writeKey s now k (some (.str []))
+  have g1 := fun k' (h : k' ≠ k) => getMeta_writeKey_other s now k (some (.str [])) k' h
   unfold Api.set
-  generalize writeKey s now k (some .strNil) = w at *
+  generalize writeKey s now k (some (.str [])) = w at *
   obtain ⟨s1, b⟩ := w
   simp only at sd1 g1 ⊢
   have hp1 : s1.pebble = true := by rw [sd1.2]; exact hp
@@ -1221,7 +1221,7 @@ theorem set_frame_pebble (s : MState) (now : Int) (k v : Bytes) (keep : Bool) (h
 theorem set_out (s : MState) (now : Int) (k v : Bytes) (keep : Bool) :
     (Api.set s now k v keep).2 = .unit ∨ (Api.set s now k v keep).2 = .panic := by
   unfold Api.set
-  generalize writeKey s now k (some .strNil) = w
+  generalize writeKey s now k (some (.str [])) = w
   obtain ⟨s1, b⟩ := w
   simp only
   cases asStr s1 k with
@@ -1377,9 +1377,9 @@ theorem tail_sorted (s : MState) (k : Bytes) (v : Val) (op : FeedOp) (h : IndexS
 
 theorem set_sorted (s : MState) (now : Int) (k : Bytes) (v : Bytes) (keep : Bool) (hs : IndexSorted s) :
     IndexSorted (Api.set s now k v keep).1 := by
-  have h1 := writeKey_sorted s now k (some .strNil) hs
+  have h1 := writeKey_sorted s now k (some (.str [])) hs
   unfold Api.set
-  generalize writeKey s now k (some .strNil) = w at *
+  generalize writeKey s now k (some (.str [])) = w at *
   obtain ⟨s1, b⟩ := w
   simp only at h1 ⊢
   cases asStr s1 k with
@@ -1392,9 +1392,9 @@ theorem set_sorted (s : MState) (now : Int) (k : Bytes) (v : Bytes) (keep : Bool
 
 theorem setOpt_sorted (s : MState) (now : Int) (k : Bytes) (v : DsStr.S) (keep : Bool) (hs : IndexSorted s) :
     IndexSorted (Api.setOpt s now k v keep).1 := by
-  have h1 := writeKey_sorted s now k (some .strNil) hs
+  have h1 := writeKey_sorted s now k (some (.str [])) hs
   unfold Api.setOpt
-  generalize writeKey s now k (some .strNil) = w at *
+  generalize writeKey s now k (some (.str [])) = w at *
   obtain ⟨s1, b⟩ := w
   simp only at h1 ⊢
   cases asStr s1 k with
@@ -1407,9 +1407,9 @@ theorem setOpt_sorted (s : MState) (now : Int) (k : Bytes) (v : DsStr.S) (keep :
 
 theorem getSet_sorted (s : MState) (now : Int) (k : Bytes) (v : Bytes) (hs : IndexSorted s) :
     IndexSorted (Api.getSet s now k v).1 := by
-  have h1 := writeKey_sorted s now k (some .strNil) hs
+  have h1 := writeKey_sorted s now k (some (.str [])) hs
   unfold Api.getSet
-  generalize writeKey s now k (some .strNil) = w at *
+  generalize writeKey s now k (some (.str [])) = w at *
   obtain ⟨s1, b⟩ := w
   simp only at h1 ⊢
   cases asStr s1 k with
@@ -1418,9 +1418,9 @@ theorem getSet_sorted (s : MState) (now : Int) (k : Bytes) (v : Bytes) (hs : Ind
 
 theorem setEX_sorted (s : MState) (now : Int) (k : Bytes) (v : Bytes) (sec : Int) (hs : IndexSorted s) :
     IndexSorted (Api.setEX s now k v sec).1 := by
-  have h1 := writeKey_sorted s now k (some .strNil) hs
+  have h1 := writeKey_sorted s now k (some (.str [])) hs
   unfold Api.setEX
-  generalize writeKey s now k (some .strNil) = w at *
+  generalize writeKey s now k (some (.str [])) = w at *
   obtain ⟨s1, b⟩ := w
   simp only at h1 ⊢
   cases asStr s1 k with
@@ -1429,9 +1429,9 @@ theorem setEX_sorted (s : MState) (now : Int) (k : Bytes) (v : Bytes) (sec : Int
 
 theorem setPX_sorted (s : MState) (now : Int) (k : Bytes) (v : Bytes) (ms : Int) (hs : IndexSorted s) :
     IndexSorted (Api.setPX s now k v ms).1 := by
-  have h1 := writeKey_sorted s now k (some .strNil) hs
+  have h1 := writeKey_sorted s now k (some (.str [])) hs
   unfold Api.setPX
-  generalize writeKey s now k (some .strNil) = w at *
+  generalize writeKey s now k (some (.str [])) = w at *
   obtain ⟨s1, b⟩ := w
   simp only at h1 ⊢
   cases asStr s1 k with
@@ -1478,9 +1478,9 @@ theorem setXX_sorted (s : MState) (now : Int) (k : Bytes) (v : Bytes) (keep : Bo
 
 theorem addInt_sorted (s : MState) (now : Int) (k : Bytes) (d : Int) (neg sw : Bool) (hs : IndexSorted s) :
     IndexSorted (Api.addInt s now k d neg sw).1 := by
-  have h1 := writeKey_sorted s now k (some .strNil) hs
+  have h1 := writeKey_sorted s now k (some (.str [])) hs
   unfold Api.addInt
-  generalize writeKey s now k (some .strNil) = w at *
+  generalize writeKey s now k (some (.str [])) = w at *
   obtain ⟨s1, b⟩ := w
   simp only at h1 ⊢
   cases asStr s1 k with
@@ -1493,9 +1493,9 @@ theorem addInt_sorted (s : MState) (now : Int) (k : Bytes) (d : Int) (neg sw : B
 
 theorem setBit_sorted (s : MState) (now : Int) (k : Bytes) (off : Int) (x : Bool) (hs : IndexSorted s) :
     IndexSorted (Api.setBit s now k off x).1 := by
-  have h1 := writeKey_sorted s now k (some .strNil) hs
+  have h1 := writeKey_sorted s now k (some (.str [])) hs
   unfold Api.setBit
-  generalize writeKey s now k (some .strNil) = w at *
+  generalize writeKey s now k (some (.str [])) = w at *
   obtain ⟨s1, b⟩ := w
   simp only at h1 ⊢
   repeat' split
@@ -1512,9 +1512,9 @@ theorem setBit_sorted (s : MState) (now : Int) (k : Bytes) (off : Int) (x : Bool
 
 theorem append_sorted (s : MState) (now : Int) (k : Bytes) (data : Bytes) (hs : IndexSorted s) :
     IndexSorted (Api.append s now k data).1 := by
-  have h1 := writeKey_sorted s now k (some .strNil) hs
+  have h1 := writeKey_sorted s now k (some (.str [])) hs
   unfold Api.append
-  generalize writeKey s now k (some .strNil) = w at *
+  generalize writeKey s now k (some (.str [])) = w at *
   obtain ⟨s1, b⟩ := w
   simp only at h1 ⊢
   repeat' split
@@ -1531,9 +1531,9 @@ theorem append_sorted (s : MState) (now : Int) (k : Bytes) (data : Bytes) (hs : 
 
 theorem setRange_sorted (s : MState) (now : Int) (k : Bytes) (off : Int) (data : Bytes) (hs : IndexSorted s) :
     IndexSorted (Api.setRange s now k off data).1 := by
-  have h1 := writeKey_sorted s now k (some .strNil) hs
+  have h1 := writeKey_sorted s now k (some (.str [])) hs
   unfold Api.setRange
-  generalize writeKey s now k (some .strNil) = w at *
+  generalize writeKey s now k (some (.str [])) = w at *
   obtain ⟨s1, b⟩ := w
   simp only at h1 ⊢
   repeat' split
